@@ -94,7 +94,7 @@ def shard(ctx):
     n = ctx.scale(250, 6000)
     for k in range(n):
         try:
-            b = mw.random_module(rng, static_instantiate=0.12, pool_rounds=rng.randint(2, 8))
+            b = mw.random_module(rng, static_instantiate=0.2, pool_rounds=rng.randint(2, 8))
         except Exception as ex:
             ctx.violation('module_construction_raises:' + type(ex).__name__, 'building a module raised', {'error': repr(ex)[:300]})
             continue
